@@ -73,8 +73,15 @@ func (p *ECPoint) UnmarshalJSON(b []byte) error {
 	if err := json.Unmarshal(b, &aux); err != nil {
 		return err
 	}
-	p.X = aux.X.Int
-	p.Y = aux.Y.Int
+	// A member that is absent or null leaves the coordinate nil: MarshalJSON
+	// omits "y" for points that have no Y (x25519).
+	p.X, p.Y = nil, nil
+	if aux.X != nil {
+		p.X = aux.X.Int
+	}
+	if aux.Y != nil {
+		p.Y = aux.Y.Int
+	}
 	return nil
 }
 
